@@ -35,7 +35,8 @@ func GetStringValue(rawString string) string {
 }
 
 func ByteSlice2String(bytes []byte) string {
-	return unsafe.String(&bytes[0], len(bytes))
+	// (SliceData instead of &bytes[0]: an empty slice must give "", not a panic)
+	return unsafe.String(unsafe.SliceData(bytes), len(bytes))
 }
 
 func String2ByteSlice(str string) []byte {
